@@ -43,6 +43,16 @@ theorem run_map (m : ExprMap) (h : ExprOK m) (n : Nat) (md : Module) (hcore : (r
   · rw [hs]
 
 
+/-- the same under `python -O` -/
+theorem runO_map (m : ExprMap) (h : ExprOK m) (n : Nat) (md : Module) (hcore : (runO n md).ending ≠ "stuck") :
+    runO n (mapModule m md) = runO n md := by
+  unfold runO mapModule at *
+  simp only at *
+  rw [collect_mapBody m h]
+  rcases (goodM_all (o := true) m h (collect md.body) n).2 St.init md.body with hs | hs
+  · rw [hs] at hcore; simp [observe] at hcore
+  · rw [hs]
+
 /-! ### instance: constant folding -/
 
 theorem foldL_eq_map (t : PrecTable) (sp : Spacing) (orc : Oracle) : ∀ l : List Expr, foldL t sp orc l = l.map (foldE t sp orc)
